@@ -480,7 +480,9 @@ def run(ck, pairs, tag, describe, num_queries=None):
                 if want and want in body:
                     found = True
             elif len(want) >= 3 and any(ch in want for ch in SPECIAL) and want in body:
-                leaked.append((c, body))
+                # a text piece that the marker's tree carries as well is the planner's own text
+                if bi not in res or body not in set(x for kk, x in res[bi][3] if kk == "T"):
+                    leaked.append((c, body))
         located += 1 if found else 0
         bs = by_site.setdefault(c["site"], [0, 0])
         bs[0] += 1
